@@ -55,3 +55,13 @@ Theorem C02_fast_path_negative : forall d, (- 2 ^ 50 < d < 0)%Z ->
   new (of_Z d) two = {| rem := zero; blade := d + 4 * ((- d + 6) / 4) |}.
 Proof. exact new_neg_quarter_turns. Qed.
 Print Assumptions C02_fast_path_negative.
+
+(* Angle::new(p, d) denotes p * PI / d (PI the double): on the general path with a non-negative total
+   the library total is within 1e-10 + 2^-52 + 2^-51 |x| + 2^-70 of the real quotient x = p * PI / d *)
+Theorem C02_new_value_pd : forall p d, fin p -> fin d -> R_ d <> 0 ->
+  Rabs (R_ p * R_ PI) <= bpow radix2 1000 -> Rabs (R_ p * R_ PI / R_ d) <= bpow radix2 998 -> bpow radix2 (-1000) <= Rabs (R_ d) ->
+  fast_path p d = false -> 0 < R_ (total_angle p d) <= bpow radix2 43 ->
+  Rabs (theta (new p d) - R_ p * R_ PI / R_ d)
+    <= R_ eps10 + / 4503599627370496 + / 2251799813685248 * Rabs (R_ p * R_ PI / R_ d) + bpow radix2 (-70).
+Proof. exact new_value_pd. Qed.
+Print Assumptions C02_new_value_pd.
